@@ -113,6 +113,8 @@ type harnessReport struct {
 	Unknown      int64                    `json:"unknown"`
 	CacheHits    int                      `json:"feasibility_answers_from_model_cache"`
 	Merged       int                      `json:"pure_calls_merged"`
+	CrossChecked int                      `json:"assertion_queries_redecided_on_second_solver,omitempty"`
+	CrossUnknown int                      `json:"assertion_queries_second_solver_timed_out,omitempty"`
 	SolverS      float64                  `json:"solver_s"`
 	MaxQueryMS   float64                  `json:"max_query_ms"`
 	WallS        float64                  `json:"wall_s"`
@@ -288,7 +290,7 @@ func (cr *checkRun) runHarness(h H, native bool) {
 	sum := cr.prog.Explore(fn, opts)
 	rep := harnessReport{Harness: h.Pkg + "." + h.Fn, Params: h.Params, Paths: sum.Paths, Done: sum.Done, AssumeDrops: sum.AssumeDrops,
 		SymPaths: sum.SymPaths, Decisions: sum.Decisions, MaxDepth: sum.MaxDepth, Steps: sum.Steps,
-		Queries: sum.Stats.Queries, Sat: sum.Stats.SatN, Unsat: sum.Stats.UnsatN, Unknown: sum.Stats.UnknownN, CacheHits: sum.CacheHits, Merged: sum.Merged,
+		Queries: sum.Stats.Queries, Sat: sum.Stats.SatN, Unsat: sum.Stats.UnsatN, Unknown: sum.Stats.UnknownN, CacheHits: sum.CacheHits, Merged: sum.Merged, CrossChecked: sum.CrossN, CrossUnknown: sum.CrossUnknown,
 		SolverS: float64(sum.Stats.SolverNS) / 1e9, MaxQueryMS: float64(sum.Stats.MaxQueryNS) / 1e6, WallS: sum.WallS,
 		Reached: sum.Reached, Discharged: sum.Asserts, Concrete: sum.AssertsConc, Violations: len(sum.Violations), Truncated: sum.Truncated,
 		Samples: sum.SamplePaths}
